@@ -1,11 +1,11 @@
 #!/bin/sh
-# tools/regress_seeds.sh [tier]  runs every stored seeded change against the check of its property (scratch worktree) and
-# prints one line per seed: CAUGHT / MISSED. Seeds marked void are skipped.
-TIER=${1:-quick}
+# tools/regress_seeds.sh [tier] [jobs]  runs every stored seeded change against the check of its property (scratch
+# worktree) and prints one line per seed: CAUGHT / MISSED. Seeds marked void are skipped. VERIF_SEED is honoured.
+TIER=${1:-quick}; JOBS=${2:-1}
 cd "$(dirname "$0")/.."
-for d in seeded/C*/ seeded/own/*.diff; do
+one() {
+  d=$1; TIER=$2
   case "$d" in
-    *void*) continue;;
     *.diff) P=$d; ID=$(basename $d | cut -c1-3 | tr 'c' 'C');;
     *) P=$d/patch.diff; ID=$(basename $d | cut -c1-3);;
   esac
@@ -15,4 +15,6 @@ for d in seeded/C*/ seeded/own/*.diff; do
   else
     echo "MISSED $ID $d $(echo "$OUT" | grep -E 'INCONC|build failed|does not apply' | head -1 | cut -c1-120)"
   fi
-done
+}
+if [ "${3:-}" = "--one" ]; then one "$4" "$TIER"; exit 0; fi
+ls -d seeded/C*/ seeded/own/*.diff | grep -v void | xargs -P "$JOBS" -I{} "$0" "$TIER" "$JOBS" --one {}
